@@ -154,6 +154,57 @@ let rec deep (e : ev) : sx list =
       :: List.concat_map deep cs
   | Sim (_, cs) -> L [A "p"; sz (dur e)] :: List.concat_map deep cs
 
+(* ---- M2: envelopes over OCaml floats (the Num record is passed here; no Extract Constant) *)
+let rec float_of_pos = function XH -> 1.0 | XO p -> 2.0 *. float_of_pos p | XI p -> 2.0 *. float_of_pos p +. 1.0
+let float_of_z = function Z0 -> 0.0 | Zpos p -> float_of_pos p | Zneg p -> -. (float_of_pos p)
+(* Python's round(x, 10) on a quotient of durations *)
+let round10 (x : float) : float =
+  if Float.is_integer x || Float.is_nan x || Float.abs x > 1e5 then x
+  else float_of_string (Printf.sprintf "%.10f" x)
+let fnum : float num = {
+  n0 = 0.0; n1 = 1.0; nadd = ( +. ); nsub = ( -. ); nmul = ( *. ); ndiv = ( /. ); nexp = exp;
+  nleb = (fun a b -> a <= b); nltb = (fun a b -> a < b); neqb = (fun a b -> a = b);
+  nint = float_of_z; tround = round10 }
+
+let fl (x : sx) : float = match x with A a -> float_of_string a | _ -> failwith "float expected"
+let sf (v : float) : sx = A (Printf.sprintf "%h" v)
+let penv (x : sx) : float env =
+  match x with
+  | L (A _ :: pts) -> List.map (fun p -> match p with L [d; v; c] -> { pd = zi d; pv = fl v; pc = fl c } | _ -> failwith "point") pts
+  | _ -> failwith "env expected"
+let senv (e : float env) : sx = L (A "E" :: List.map (fun p -> L [sz p.pd; sf p.pv; sf p.pc]) e)
+let spoint (((t, v), c) : float point) : sx = L [sz t; sf v; sf c]
+let rerr k = L [A "err"; A (err_name k)]
+let rfloat (r : float res) : sx = match r with Ok v -> L [A "ok"; sf v] | Err k -> rerr k
+let renv (r : float env res) : sx = match r with Ok e -> L [A "ok"; senv e] | Err k -> rerr k
+
+let env_query (e : float env) (q : sx) : sx =
+  match q with
+  | L [A "value_at"; t] -> rfloat (value_at fnum e (zi t))
+  | L [A "parameter_at"; t] -> rfloat (value_at fnum e (zi t))
+  | L [A "curve_shape_at"; t] -> rfloat (curve_shape_at fnum e (zi t))
+  | L [A "point_at"; t] -> (match point_at fnum e (zi t) with Ok p -> L [A "ok"; spoint p] | Err k -> rerr k)
+  | L [A "range"; s; en] ->
+      (match points_in_range fnum e (zi s) (zi en) with Ok pl -> L [A "ok"; L (List.map spoint pl)] | Err k -> rerr k)
+  | L [A "integrate"; s; en] -> rfloat (integrate fnum e (zi s) (zi en))
+  | L [A "average"; s; en] -> rfloat (average fnum e (zi s) (zi en))
+  | L [A "average_all"] -> rfloat (average fnum e Z0 (pdur e))
+  | L [A "is_static"] -> L [A "ok"; A (if is_static fnum e then "1" else "0")]
+  | L [A "points"] -> L [A "ok"; L (List.map spoint (to_points e))]
+  | _ -> failwith ("unknown query " ^ show q)
+
+let env_op (e : float env) (op : sx) : sx =
+  match op with
+  | L [A "sample_at"; t; ap] -> renv (sample_at fnum e (zi t) (zi ap))
+  | L [A "extend_until"; d] -> renv (env_extend_until fnum e (zi d))
+  | L [A "cut_out"; s; en] -> renv (env_cut_out fnum e (zi s) (zi en))
+  | L [A "cut_off"; s; en] -> renv (env_cut_off fnum e (zi s) (zi en))
+  | L (A "split_at" :: ign :: ts) ->
+      (match env_split_at fnum e (List.map zi ts) (bi ign) with
+       | Ok ps -> L [A "ok"; L (A "parts" :: List.map senv ps)]
+       | Err k -> rerr k)
+  | _ -> failwith ("unknown env op " ^ show op)
+
 let eval (x : sx) : sx =
   match x with
   | L [A "dur"; t] -> L [A "ok"; sz (dur (tree t))]
@@ -170,6 +221,10 @@ let eval (x : sx) : sx =
            | Ok e -> go e r (L [A "ok"; stree e] :: acc)
            | Err k -> List.rev (L [A "err"; A (err_name k)] :: acc)) in
       L (A "hist" :: go (tree t) ops [])
+  | L (A "envq" :: e :: qs) -> let e = penv e in L (A "envq" :: List.map (env_query e) qs)
+  | L [A "envop"; e; op] -> env_op (penv e) op
+  | L [A "of_points"; L pts] ->
+      senv (of_points (List.map (fun p -> match p with L [t; v; c] -> ((zi t, fl v), fl c) | _ -> failwith "point") pts))
   | L (A "op" :: t :: [op]) -> rtree (apply_op (tree t) op)
   | L (A "c01" :: t :: ops) ->
       let t0 = tree t in
